@@ -92,6 +92,7 @@ fn main() {
         }
         "dbgac" => { dbg_ac(); return; }
         "dbgspawn" => { dbg_spawn(); return; }
+        "dbgsettle" => { dbg_settle(); return; }
         "smoke" => {
             smoke();
             return;
@@ -206,4 +207,47 @@ fn dbg_spawn() {
         }
     }
     println!("fails {fails}");
+}
+
+
+/// stress: failed dump -> settle -> dump; how often is a pause sentinel NOT captured inside its
+/// system call (rip just after the syscall instruction)?
+fn dbg_settle() {
+    use vh::tspec::*;
+    let iters: usize = std::env::var("ITERS").ok().and_then(|s| s.parse().ok()).unwrap_or(500);
+    let mut rng = vh::rng::Rng::new(11);
+    let mut b = Builder::new();
+    for _ in 0..4 {
+        b.sentinel(&mut rng, Mode::Pause, &StackShape::default(), None, None);
+    }
+    let t = vh::target::Target::spawn(b.spec.clone(), &b.opts).expect("spawn");
+    let mut odd = 0;
+    for it in 0..iters {
+        let o = vh::dump::DumpOpts::new(t.pid, t.pid);
+        let (mut w, _g) = vh::dump::configure(&o);
+        let mut df = vh::dest::Dest::plain();
+        df.set_fault(3 + it % 60, vh::dest::Fault::Error);
+        let _ = vh::dump::dump_with(&mut w, &mut df);
+        // what do the threads look like right now / when settle says "settled"?
+        let st0: Vec<String> = t.manifest.tids.iter().map(|tid| format!("{:?}/{}", t.thread_status(*tid).map(|s| s.0), std::fs::read_to_string(format!("/proc/{}/task/{}/syscall", t.pid, tid)).unwrap_or_default().split(' ').next().unwrap_or("").trim().to_string())).collect();
+        t.settle();
+        let st1: Vec<String> = t.manifest.tids.iter().map(|tid| format!("{:?}/{}", t.thread_status(*tid).map(|s| s.0), std::fs::read_to_string(format!("/proc/{}/task/{}/syscall", t.pid, tid)).unwrap_or_default().split(' ').next().unwrap_or("").trim().to_string())).collect();
+        let mut d = vh::dest::Dest::plain();
+        let out = vh::dump::dump_with(&mut w, &mut d);
+        if let vh::dump::Outcome::Ok(img) = out {
+            let im = vh::image::decode(&img);
+            for s in &b.sentinels {
+                let tid = t.manifest.tids[s.index];
+                if let Some(th) = im.threads.as_ref().and_then(|v| v.iter().find(|th| th.tid as i32 == tid)) {
+                    if let Some(c) = &th.ctx {
+                        if c.rip != s.stub_addr + vh::spec::STUB_PAUSE_AFTER_SYSCALL {
+                            odd += 1;
+                            println!("iter {it}: tid {tid} rip {:#x} (stub {:#x}) before-settle {:?} after-settle {:?}", c.rip, s.stub_addr, st0, st1);
+                        }
+                    }
+                }
+            }
+        }
+    }
+    println!("iters {iters} odd {odd}");
 }
